@@ -10,7 +10,7 @@ git apply "$PATCH"
 trap 'git -C /repo checkout -- . ' EXIT
 # evidence and replay files of a mutated tree must not overwrite the real ones
 export QSIM_ROOT_OVERRIDE=/dev/shm/qsim-mutation-out
-mkdir -p "$QSIM_ROOT_OVERRIDE" && cp /verif/known_findings.json "$QSIM_ROOT_OVERRIDE/"
+rm -rf "$QSIM_ROOT_OVERRIDE/replays"; mkdir -p "$QSIM_ROOT_OVERRIDE" && cp /verif/known_findings.json "$QSIM_ROOT_OVERRIDE/"
 cd /verif && bin/check "$ID" "$TIER"
 RC=$?
 echo "try_mutation: check exit code $RC"
